@@ -62,13 +62,21 @@ type c15Upd struct {
 	pushCalls []*ast.CallExpr
 	lists     []*types.Var // variables handed to pushCodecs (arg 0)
 	passes    []*c15Pass
-	exact     *types.Var
-	partial   *types.Var
-	kMatch    map[string]*types.Const
+	regions   []*core.Graph // function body + bodies of its function literals
+	// the selection (the pushCodecs calls) lives in the function itself or in a same-package helper its tail was moved into
+	selFi   *core.FuncInfo
+	selG    *core.Graph
+	selCall *ast.CallExpr             // the call of the helper (nil when the selection is in the function)
+	selVar  map[*types.Var]*types.Var // parameter of the helper -> the variable passed for it
+	exact   *types.Var
+	partial *types.Var
+	kMatch  map[string]*types.Const
 }
 
 // c15Pass is one matching loop: the definition node of the match results and the add sites of the loop.
 type c15Pass struct {
+	g         *core.Graph   // the body holding the pass: the function's or a closure's
+	anchor    *ast.CallExpr // orders the passes: the match call, or the invocation of the closure holding it
 	rs        *ast.RangeStmt
 	defNode   int
 	call      *ast.CallExpr // matchRemoteCodec call
@@ -110,26 +118,71 @@ func c15Anchors(c *Ctx, rule string) *c15Upd {
 	info := u.g.Info
 	fn := u.fi.Name()
 
+	// regions: the function body and the body of every function literal inside it (a matching pass may live in a closure)
+	u.regions = []*core.Graph{u.g}
+	ast.Inspect(u.fi.Decl.Body, func(x ast.Node) bool {
+		if fl, ok := x.(*ast.FuncLit); ok {
+			if lg := c.P.GraphOfLit(fl); lg != nil {
+				u.regions = append(u.regions, lg)
+			}
+		}
+		return true
+	})
+
 	// push calls and the lists they receive
 	seenList := map[*types.Var]bool{}
-	for _, n := range u.g.Nodes {
-		if n.Ast == nil {
-			continue
+	findPush := func(f *core.FuncInfo) []*ast.CallExpr {
+		var out []*ast.CallExpr
+		finfo := f.Pkg.TypesInfo
+		ast.Inspect(f.Decl.Body, func(x ast.Node) bool {
+			if call, ok := x.(*ast.CallExpr); ok && core.IsCallTo(finfo, call, u.push.Obj) {
+				out = append(out, call)
+			}
+			return true
+		})
+		return out
+	}
+	u.selFi, u.selG, u.selVar = u.fi, u.g, map[*types.Var]*types.Var{}
+	u.pushCalls = findPush(u.fi)
+	if len(u.pushCalls) == 0 {
+		// the tail may have been extracted: exactly one call of a same-package helper that pushes its own parameters
+		var cands []*ast.CallExpr
+		ast.Inspect(u.fi.Decl.Body, func(x ast.Node) bool {
+			if call, ok := x.(*ast.CallExpr); ok {
+				if h := c.P.DeclOf(core.Callee(info, call)); h != nil && h.Decl.Body != nil && h.Pkg == u.fi.Pkg && h != u.match && h != u.push && len(findPush(h)) > 0 {
+					cands = append(cands, call)
+				}
+			}
+			return true
+		})
+		if len(cands) == 1 {
+			h := c.P.DeclOf(core.Callee(info, cands[0]))
+			hsig := h.Obj.Type().(*types.Signature)
+			if !hsig.Variadic() && u.g.NodeOf(cands[0]) >= 0 {
+				u.selFi, u.selG, u.selCall = h, c.P.GraphOf(h), cands[0]
+				for i := 0; i < hsig.Params().Len() && i < len(cands[0].Args); i++ {
+					if v := core.VarOf(info, cands[0].Args[i]); v != nil {
+						u.selVar[hsig.Params().At(i)] = v
+					}
+				}
+				u.pushCalls = findPush(h)
+			}
 		}
-		for _, call := range core.CallsIn(n.Ast) {
-			if !core.IsCallTo(info, call, u.push.Obj) {
-				continue
-			}
-			u.pushCalls = append(u.pushCalls, call)
-			lv := core.VarOf(info, call.Args[0])
-			if lv == nil {
-				c.R.Undecided(rule, fn+"|push-arg", c.P.Pos(call.Pos()), "the list handed to pushCodecs is not a local variable: "+exprStr(call.Args[0]))
-				return nil
-			}
-			if !seenList[lv] {
-				seenList[lv] = true
-				u.lists = append(u.lists, lv)
-			}
+	}
+	sinfo := u.selFi.Pkg.TypesInfo
+	for _, call := range u.pushCalls {
+		lv := u.outer(core.VarOf(sinfo, call.Args[0]))
+		if lv == nil || lv.IsField() || (u.selCall != nil && u.selVar[core.VarOf(sinfo, call.Args[0])] == nil) {
+			c.R.Undecided(rule, fn+"|push-arg", c.P.Pos(call.Pos()), "the list handed to pushCodecs is not a local variable of updateFromRemoteDescription: "+exprStr(call.Args[0]))
+			return nil
+		}
+		if u.selG.NodeOf(call) < 0 {
+			c.R.Undecided(rule, fn+"|push-arg", c.P.Pos(call.Pos()), "pushCodecs is called inside a function literal: the selection cannot be related to the matching passes")
+			return nil
+		}
+		if !seenList[lv] {
+			seenList[lv] = true
+			u.lists = append(u.lists, lv)
 		}
 	}
 	if len(u.pushCalls) < 2 || len(u.lists) != 2 {
@@ -137,39 +190,64 @@ func c15Anchors(c *Ctx, rule string) *c15Upd {
 		return nil
 	}
 
-	// matching passes: every call of matchRemoteCodec
-	for _, n := range u.g.Nodes {
-		if n.Ast == nil {
-			continue
-		}
-		as, ok := n.Ast.(*ast.AssignStmt)
-		if !ok || len(as.Rhs) != 1 {
-			continue
-		}
-		call, ok := ast.Unparen(as.Rhs[0]).(*ast.CallExpr)
-		if !ok || !core.IsCallTo(info, call, u.match.Obj) {
-			continue
-		}
-		p := &c15Pass{defNode: n.ID, call: call}
-		if len(as.Lhs) != 3 {
-			c.R.Undecided(rule, fn+"|match-call", c.P.Pos(call.Pos()), "matchRemoteCodec results are not bound to three variables")
-			return nil
-		}
-		p.local, p.matchType = core.VarOf(info, as.Lhs[0]), core.VarOf(info, as.Lhs[1])
-		p.remote = core.VarOf(info, call.Args[0])
-		// enclosing range statement whose value is the remote codec
-		for _, x := range u.g.PathTo(as) {
-			if rs, ok := x.(*ast.RangeStmt); ok && rs.Value != nil && core.VarOf(info, rs.Value) == p.remote {
-				p.rs = rs
+	// matching passes: every call of matchRemoteCodec, in the function body or in a closure of it.
+	// A pass inside a closure counts once per invocation of the closure (two identical loops merged
+	// into one closure called twice are still two passes).
+	nSyntactic := 0
+	for _, rg := range u.regions {
+		for _, n := range rg.Nodes {
+			if n.Ast == nil {
+				continue
+			}
+			as, ok := n.Ast.(*ast.AssignStmt)
+			if !ok || len(as.Rhs) != 1 {
+				continue
+			}
+			call, ok := ast.Unparen(as.Rhs[0]).(*ast.CallExpr)
+			if !ok || !core.IsCallTo(info, call, u.match.Obj) {
+				continue
+			}
+			nSyntactic++
+			p := &c15Pass{g: rg, defNode: n.ID, call: call, anchor: call}
+			if len(as.Lhs) != 3 {
+				c.R.Undecided(rule, fn+"|match-call", c.P.Pos(call.Pos()), "matchRemoteCodec results are not bound to three variables")
+				return nil
+			}
+			p.local, p.matchType = core.VarOf(info, as.Lhs[0]), core.VarOf(info, as.Lhs[1])
+			p.remote = core.VarOf(info, call.Args[0])
+			// enclosing range statement whose value is the remote codec
+			for _, x := range u.g.PathTo(as) {
+				if rs, ok := x.(*ast.RangeStmt); ok && rs.Value != nil && core.VarOf(info, rs.Value) == p.remote {
+					p.rs = rs
+				}
+			}
+			if p.matchType == nil || p.remote == nil || p.rs == nil {
+				c.R.Undecided(rule, fn+"|match-call", c.P.Pos(call.Pos()), "cannot resolve the matching pass: the first argument of matchRemoteCodec must be the value variable of the enclosing range loop and the match type must be bound to a variable")
+				return nil
+			}
+			if _, _, _, ok := rg.RangeLoop(p.rs); !ok {
+				c.R.Undecided(rule, fn+"|match-call", c.P.Pos(call.Pos()), "the loop of the matching pass and the call of matchRemoteCodec are not in the same function body")
+				return nil
+			}
+			if rg == u.g {
+				u.passes = append(u.passes, p)
+				continue
+			}
+			// inside a closure: one pass per invocation
+			lit, _ := rg.Fn.(*ast.FuncLit)
+			invs := c15Invocations(u, lit)
+			if len(invs) == 0 {
+				c.R.Undecided(rule, fn+"|match-call", c.P.Pos(call.Pos()), "matchRemoteCodec is called inside a function literal that is neither invoked in place nor bound to a local variable called from the function body")
+				return nil
+			}
+			for _, inv := range invs {
+				q := *p
+				q.anchor = inv
+				u.passes = append(u.passes, &q)
 			}
 		}
-		if p.matchType == nil || p.remote == nil || p.rs == nil {
-			c.R.Undecided(rule, fn+"|match-call", c.P.Pos(call.Pos()), "cannot resolve the matching pass: the first argument of matchRemoteCodec must be the value variable of the enclosing range loop and the match type must be bound to a variable")
-			return nil
-		}
-		u.passes = append(u.passes, p)
 	}
-	sort.Slice(u.passes, func(i, j int) bool { return u.passes[i].call.Pos() < u.passes[j].call.Pos() })
+	sort.Slice(u.passes, func(i, j int) bool { return u.passes[i].anchor.Pos() < u.passes[j].anchor.Pos() })
 	// a call of matchRemoteCodec not in assignment form would be missed above: count all calls
 	nCalls := 0
 	ast.Inspect(u.fi.Decl.Body, func(x ast.Node) bool {
@@ -178,61 +256,154 @@ func c15Anchors(c *Ctx, rule string) *c15Upd {
 		}
 		return true
 	})
-	if len(u.passes) == 0 || nCalls != len(u.passes) {
-		c.R.Undecided(rule, fn+"|match-call", u.pos, sprintf("%d call(s) of matchRemoteCodec, %d in the recognised 'local, matchType, err := m.matchRemoteCodec(remoteCodec, ...)' form inside a range loop", nCalls, len(u.passes)))
+	if len(u.passes) == 0 || nCalls != nSyntactic {
+		c.R.Undecided(rule, fn+"|match-call", u.pos, sprintf("%d call(s) of matchRemoteCodec, %d in the recognised 'local, matchType, err := m.matchRemoteCodec(remoteCodec, ...)' form inside a range loop", nCalls, nSyntactic))
 		return nil
 	}
 
 	// add sites: every definition of a pushed list that is not an empty initialisation
 	isList := func(v *types.Var) bool { return v != nil && seenList[v] }
-	for _, n := range u.g.Nodes {
-		if n.Ast == nil {
-			continue
-		}
-		as, ok := n.Ast.(*ast.AssignStmt)
-		if !ok {
-			continue
-		}
-		for i, l := range as.Lhs {
-			lv := core.VarOf(info, l)
-			if !isList(lv) {
-				// element / field stores into a list
-				if rv := c15RootVar(info, l); isList(rv) {
-					c.R.Fail(rule, fn+"|list-store", c.P.Pos(l.Pos()), "a match list handed to pushCodecs is modified in place ("+exprStr(l)+"): the pushed values are no longer only the added remote codecs")
+	for _, rg := range u.regions {
+		for _, n := range rg.Nodes {
+			if n.Ast == nil {
+				continue
+			}
+			as, ok := n.Ast.(*ast.AssignStmt)
+			if !ok {
+				continue
+			}
+			for i, l := range as.Lhs {
+				lv := core.VarOf(info, l)
+				if !isList(lv) {
+					// element / field stores into a list
+					if rv := c15RootVar(info, l); isList(rv) {
+						c.R.Fail(rule, fn+"|list-store", c.P.Pos(l.Pos()), "a match list handed to pushCodecs is modified in place ("+exprStr(l)+"): the pushed values are no longer only the added remote codecs")
+					}
+					continue
 				}
-				continue
-			}
-			if len(as.Rhs) != len(as.Lhs) {
-				c.R.Undecided(rule, fn+"|list-def", c.P.Pos(as.Pos()), "match list defined by a multi-value expression")
-				continue
-			}
-			rhs := ast.Unparen(as.Rhs[i])
-			if c15IsEmptyInit(info, rhs) {
-				continue
-			}
-			call, ok := rhs.(*ast.CallExpr)
-			if !ok || len(call.Args) != 2 || core.VarOf(info, call.Args[0]) != lv || call.Ellipsis.IsValid() {
-				c.R.Undecided(rule, fn+"|list-def", c.P.Pos(as.Pos()), "unrecognised definition of a match list (expected L = add(L, codec) or an empty initialisation): "+exprStr(rhs))
-				continue
-			}
-			add := c15Add{node: n.ID, list: lv, added: call.Args[1], pos: as.Pos()}
-			// attribute to the pass whose loop encloses it
-			var owner *c15Pass
-			for _, x := range u.g.PathTo(as) {
-				for _, p := range u.passes {
-					if x == ast.Node(p.rs) {
-						owner = p
+				if len(as.Rhs) != len(as.Lhs) {
+					c.R.Undecided(rule, fn+"|list-def", c.P.Pos(as.Pos()), "match list defined by a multi-value expression")
+					continue
+				}
+				rhs := ast.Unparen(as.Rhs[i])
+				if c15IsEmptyInit(info, rhs) {
+					continue
+				}
+				call, ok := rhs.(*ast.CallExpr)
+				if !ok || len(call.Args) != 2 || core.VarOf(info, call.Args[0]) != lv || call.Ellipsis.IsValid() {
+					c.R.Undecided(rule, fn+"|list-def", c.P.Pos(as.Pos()), "unrecognised definition of a match list (expected L = add(L, codec) or an empty initialisation): "+exprStr(rhs))
+					continue
+				}
+				add := c15Add{node: n.ID, list: lv, added: call.Args[1], pos: as.Pos()}
+				// attribute to the pass(es) whose loop encloses it (every invocation of a closure pass)
+				owned := false
+				for _, x := range u.g.PathTo(as) {
+					for _, p := range u.passes {
+						if x == ast.Node(p.rs) && p.g == rg {
+							p.adds = append(p.adds, add)
+							owned = true
+						}
 					}
 				}
+				if !owned {
+					c.R.Fail(rule, fn+"|add-outside-pass", c.P.Pos(as.Pos()), "a codec is added to a match list outside a matching loop (no match type governs it): "+exprStr(rhs))
+				}
 			}
-			if owner == nil {
-				c.R.Fail(rule, fn+"|add-outside-pass", c.P.Pos(as.Pos()), "a codec is added to a match list outside a matching loop (no match type governs it): "+exprStr(rhs))
-				continue
-			}
-			owner.adds = append(owner.adds, add)
 		}
 	}
 	return u
+}
+
+// c15Invocations lists, in source order, the calls that run the function literal: the literal invoked in place,
+// or the calls through the local variable it is (solely) bound to.
+func c15Invocations(u *c15Upd, lit *ast.FuncLit) []*ast.CallExpr {
+	return c15LitInvocations(u.g.Info, u.fi.Decl.Body, lit)
+}
+
+// c15LitInvocations: see c15Invocations; body is the enclosing function's body.
+func c15LitInvocations(info *types.Info, body *ast.BlockStmt, lit *ast.FuncLit) []*ast.CallExpr {
+	if lit == nil {
+		return nil
+	}
+	var out []*ast.CallExpr
+	var bound *types.Var
+	ast.Inspect(body, func(x ast.Node) bool {
+		switch s := x.(type) {
+		case *ast.CallExpr:
+			if ast.Unparen(s.Fun) == ast.Expr(lit) {
+				out = append(out, s)
+			}
+		case *ast.AssignStmt:
+			if len(s.Lhs) == len(s.Rhs) {
+				for i, r := range s.Rhs {
+					if ast.Unparen(r) == ast.Expr(lit) {
+						bound = core.VarOf(info, s.Lhs[i])
+					}
+				}
+			}
+		case *ast.ValueSpec:
+			if len(s.Names) == len(s.Values) {
+				for i, r := range s.Values {
+					if ast.Unparen(r) == ast.Expr(lit) {
+						bound, _ = info.Defs[s.Names[i]].(*types.Var)
+					}
+				}
+			}
+		}
+		return true
+	})
+	if bound == nil {
+		return out
+	}
+	// the variable must have no other definition, and must only be called
+	nDefs, escapes := 0, false
+	ast.Inspect(body, func(x ast.Node) bool {
+		switch s := x.(type) {
+		case *ast.AssignStmt:
+			for _, l := range s.Lhs {
+				if core.VarOf(info, l) == bound {
+					nDefs++
+				}
+			}
+		case *ast.ValueSpec:
+			for _, nm := range s.Names {
+				if info.Defs[nm] == types.Object(bound) {
+					nDefs++
+				}
+			}
+		case *ast.CallExpr:
+			if core.VarOf(info, s.Fun) == bound {
+				out = append(out, s)
+			}
+			for _, a := range s.Args {
+				if core.VarOf(info, a) == bound {
+					escapes = true
+				}
+			}
+		case *ast.GoStmt:
+			if core.VarOf(info, s.Call.Fun) == bound {
+				escapes = true
+			}
+		case *ast.DeferStmt:
+			if core.VarOf(info, s.Call.Fun) == bound {
+				escapes = true
+			}
+		}
+		return true
+	})
+	if nDefs != 1 || escapes {
+		return nil
+	}
+	sort.Slice(out, func(i, j int) bool { return out[i].Pos() < out[j].Pos() })
+	return out
+}
+
+// outer maps a variable of the function holding the selection to the variable of updateFromRemoteDescription it stands for.
+func (u *c15Upd) outer(v *types.Var) *types.Var {
+	if w, ok := u.selVar[v]; ok {
+		return w
+	}
+	return v
 }
 
 func c15RootVar(info *types.Info, e ast.Expr) *types.Var {
@@ -286,7 +457,7 @@ func c15R1(c *Ctx, rule string, u *c15Upd) {
 
 	// (a) coarse closure: everything that can be in a pushed list
 	for _, call := range u.pushCalls {
-		lv := core.VarOf(info, call.Args[0])
+		lv := u.outer(core.VarOf(u.selFi.Pkg.TypesInfo, call.Args[0]))
 		leaves := u.pv.LeavesOfVar(lv)
 		bad := ""
 		n := 0
@@ -347,14 +518,14 @@ func c15R1(c *Ctx, rule string, u *c15Upd) {
 			r.Fail(rule, sprintf("%s|%s|adds", fn, c15PassName(pi)), c.P.Pos(p.call.Pos()), "a matching pass adds nothing to any match list")
 			continue
 		}
-		head, _, _, ok := u.g.RangeLoop(p.rs)
+		head, _, _, ok := p.g.RangeLoop(p.rs)
 		if !ok {
 			r.Undecided(rule, sprintf("%s|%s|loop", fn, c15PassName(pi)), c.P.Pos(p.rs.Pos()), "range loop not found in the CFG")
 			continue
 		}
 		for _, mv := range vals {
 			mv := mv
-			cf := &core.ConstFlow{G: u.g,
+			cf := &core.ConstFlow{G: p.g,
 				Inject: func(node int, v *types.Var, rhs ast.Expr, idx int, env core.CFEnv) (constant.Value, bool) {
 					if node == p.defNode && v == p.matchType {
 						return mv.v, true
@@ -608,7 +779,7 @@ func c15RemotePure(u *c15Upd, e ast.Expr, seen map[*types.Var]bool, depth int) s
 
 func c15R2(c *Ctx, rule string, u *c15Upd) {
 	r := c.R
-	info := u.g.Info
+	info := u.selG.Info
 	fn := u.fi.Name()
 	if u.exact == nil || u.partial == nil || u.exact == u.partial {
 		r.Undecided(rule, fn+"|selection", u.pos, "the exact and the partial list could not be told apart (see R1)")
@@ -627,7 +798,7 @@ func c15R2(c *Ctx, rule string, u *c15Upd) {
 		if b, ok := info.Uses[id].(*types.Builtin); !ok || b.Name() != "len" {
 			return nil
 		}
-		v := core.VarOf(info, call.Args[0])
+		v := u.outer(core.VarOf(info, call.Args[0]))
 		if v == u.exact || v == u.partial {
 			return v
 		}
@@ -635,7 +806,23 @@ func c15R2(c *Ctx, rule string, u *c15Upd) {
 	}
 	okLen := map[ast.Expr]bool{}
 	escape := ""
-	ast.Inspect(u.fi.Decl.Body, func(n ast.Node) bool {
+	if u.selCall != nil {
+		// the lists' lengths must not be inspected in the caller at all
+		oinfo := u.g.Info
+		ast.Inspect(u.fi.Decl.Body, func(n ast.Node) bool {
+			if call, ok := n.(*ast.CallExpr); ok && len(call.Args) == 1 {
+				if id, ok := ast.Unparen(call.Fun).(*ast.Ident); ok {
+					if b, ok := oinfo.Uses[id].(*types.Builtin); ok && b.Name() == "len" {
+						if v := core.VarOf(oinfo, call.Args[0]); v != nil && (v == u.exact || v == u.partial) {
+							escape = "len of a match list is used in updateFromRemoteDescription while the selection lives in " + u.selFi.Name() + " at " + c.P.Pos(call.Pos())
+						}
+					}
+				}
+			}
+			return true
+		})
+	}
+	ast.Inspect(u.selFi.Decl.Body, func(n ast.Node) bool {
 		if be, ok := n.(*ast.BinaryExpr); ok {
 			for _, pr := range [][2]ast.Expr{{be.X, be.Y}, {be.Y, be.X}} {
 				if isLenOf(pr[0]) != nil {
@@ -649,7 +836,7 @@ func c15R2(c *Ctx, rule string, u *c15Upd) {
 		}
 		return true
 	})
-	ast.Inspect(u.fi.Decl.Body, func(n ast.Node) bool {
+	ast.Inspect(u.selFi.Decl.Body, func(n ast.Node) bool {
 		if e, ok := n.(ast.Expr); ok && isLenOf(e) != nil && !okLen[ast.Unparen(e)] {
 			// make(..., 0, len(codecs)) style capacity uses of *other* lists are not len(list); this is a use of the match list length
 			escape = "len of a match list is used other than in a comparison with 0/1 at " + c.P.Pos(e.Pos())
@@ -662,15 +849,39 @@ func c15R2(c *Ctx, rule string, u *c15Upd) {
 	}
 	// start: the first node after the last matching pass completes; explore to the end of the media iteration
 	last := u.passes[len(u.passes)-1]
-	_, _, done, ok := u.g.RangeLoop(last.rs)
-	if !ok {
-		r.Undecided(rule, fn+"|selection", u.pos, "last matching loop not found in the CFG")
-		return
+	// start after the last pass: the exit of its loop, or (pass in a closure) the statement that invokes the closure last
+	var done int
+	var anchorNode ast.Node
+	if u.selCall != nil {
+		// the selection is the body of the helper: explored from its entry to its exits. In the caller the helper must be
+		// called after the last pass (same iteration of the media loop)
+		after := u.g.NodeOf(last.anchor)
+		if last.g == u.g {
+			_, _, after, _ = u.g.RangeLoop(last.rs)
+		}
+		if after < 0 || !u.g.Reach([]int{after}, nil, nil)[u.g.NodeOf(u.selCall)] {
+			r.Undecided(rule, fn+"|selection", u.pos, "the helper holding the selection is not reached after the last matching pass")
+			return
+		}
+		done, anchorNode = u.selG.Entry, nil
+	} else if last.g == u.g {
+		_, _, d, ok := u.g.RangeLoop(last.rs)
+		if !ok {
+			r.Undecided(rule, fn+"|selection", u.pos, "last matching loop not found in the CFG")
+			return
+		}
+		done, anchorNode = d, last.rs
+	} else {
+		done, anchorNode = u.g.NodeOf(last.anchor), last.anchor
+		if done < 0 {
+			r.Undecided(rule, fn+"|selection", u.pos, "the last invocation of the matching closure is not a statement of the function body")
+			return
+		}
 	}
 	// the enclosing media loop head bounds the exploration
 	mediaHead := -1
-	for _, x := range u.g.PathTo(last.rs) {
-		if rs, ok := x.(*ast.RangeStmt); ok && rs != last.rs {
+	for _, x := range c15PathOrNil(u.g, anchorNode) {
+		if rs, ok := x.(*ast.RangeStmt); ok && ast.Node(rs) != anchorNode {
 			if h, _, _, ok := u.g.RangeLoop(rs); ok {
 				mediaHead = h
 			}
@@ -678,11 +889,11 @@ func c15R2(c *Ctx, rule string, u *c15Upd) {
 	}
 	pushNode := map[*ast.CallExpr]int{}
 	for _, pc := range u.pushCalls {
-		pushNode[pc] = u.g.NodeOf(pc)
+		pushNode[pc] = u.selG.NodeOf(pc)
 	}
 	for _, sc := range []struct{ e, p bool }{{true, true}, {true, false}, {false, true}, {false, false}} {
 		sc := sc
-		cf := &core.ConstFlow{G: u.g,
+		cf := &core.ConstFlow{G: u.selG,
 			Assume: func(e ast.Expr, env core.CFEnv) (constant.Value, bool) {
 				if v := isLenOf(e); v != nil {
 					nonEmpty := sc.e
@@ -706,7 +917,7 @@ func c15R2(c *Ctx, rule string, u *c15Upd) {
 			if n < 0 || !res.ReachedNode(n) {
 				continue
 			}
-			lv := core.VarOf(info, pc.Args[0])
+			lv := u.outer(core.VarOf(info, pc.Args[0]))
 			switch lv {
 			case u.exact:
 				gotExact = true
@@ -737,14 +948,21 @@ func c15R2(c *Ctx, rule string, u *c15Upd) {
 	}
 	// kind argument
 	for _, pc := range u.pushCalls {
-		kv := core.VarOf(info, pc.Args[1])
+		kv := u.outer(core.VarOf(info, pc.Args[1]))
 		okKind := kv != nil
 		for _, p := range u.passes {
-			if len(p.call.Args) < 2 || core.VarOf(info, p.call.Args[1]) != kv {
+			if len(p.call.Args) < 2 || core.VarOf(u.g.Info, p.call.Args[1]) != kv {
 				okKind = false
 			}
 		}
-		r.Check(okKind, rule, sprintf("%s|push-kind|%s", fn, c15ListRole(u, core.VarOf(info, pc.Args[0]))), c.P.Pos(pc.Pos()),
+		r.Check(okKind, rule, sprintf("%s|push-kind|%s", fn, c15ListRole(u, u.outer(core.VarOf(info, pc.Args[0])))), c.P.Pos(pc.Pos()),
 			"the kind handed to pushCodecs is the kind the codecs were matched for", "the kind handed to pushCodecs ("+exprStr(pc.Args[1])+") is not the variable the codecs were matched with: codecs of one kind would be negotiated for another")
 	}
+}
+
+func c15PathOrNil(g *core.Graph, n ast.Node) []ast.Node {
+	if n == nil {
+		return nil
+	}
+	return g.PathTo(n)
 }
